@@ -5,10 +5,12 @@ pub mod c02;
 pub mod c03;
 pub mod c04;
 pub mod c05;
+pub mod c06;
 pub mod c08;
 pub mod c09;
 pub mod c12;
 pub mod c13;
+pub mod c19;
 pub mod c20;
 
 pub struct Check {
@@ -23,10 +25,12 @@ pub fn all() -> Vec<Check> {
         Check { info: &c03::INFO, run: c03::run },
         Check { info: &c04::INFO, run: c04::run },
         Check { info: &c05::INFO, run: c05::run },
+        Check { info: &c06::INFO, run: c06::run },
         Check { info: &c08::INFO, run: c08::run },
         Check { info: &c09::INFO, run: c09::run },
         Check { info: &c12::INFO, run: c12::run },
         Check { info: &c13::INFO, run: c13::run },
+        Check { info: &c19::INFO, run: c19::run },
         Check { info: &c20::INFO, run: c20::run },
     ]
 }
